@@ -148,7 +148,7 @@ def model_moves_only(line):
 @prop("C14", "C14.v", THEOREMS["C14"])
 def run_c14(o, tier, rng, prep):
     n = 400 if tier == "quick" else 20000
-    fens = gens.random_placements(rng, n)
+    fens = gens.random_placements(rng, n, any_kings=True)
     # single-piece basis, exhaustive: 12 pieces x 64 squares
     basis = []
     for pc in "PNBRQKpnbrqk":
